@@ -109,7 +109,10 @@ class C12Gen:
                 return ["draw", fam, [var(rng.choice(self.probs))]]
             return ["draw", fam, [num(rng.choice(PROB_POOL))]]
         if fam == "Categorical":
-            return ["draw", fam, [num(p) for p in rand_probs(rng, rng.choice([2, 3, 4]))]]
+            ps = [num(p) for p in rand_probs(rng, rng.choice([2, 3, 4]))]
+            if rng.random() < 0.25:
+                ps.insert(rng.randrange(len(ps) + 1), num(0))      # a category that never occurs
+            return ["draw", fam, ps]
         if fam == "DiscreteUniform":
             a = rng.choice([-2, -1, 0, 1])
             return ["draw", fam, [num(a), num(a + rng.choice([1, 2, 3, 5]))]]
@@ -429,6 +432,13 @@ class C05Gen(C12Gen):
             if rng.random() < 0.5:
                 return ["simul", vs, [var(vs[1]), var(vs[0])]]
             return ["simul", vs, [self.finite_rhs(vs[0]), self.finite_rhs(vs[1])]]
+        if 0.45 <= r < 0.52 and len(self.all) >= 3 and budget[0] > 2 and depth == 0:
+            # a delay line: w = x; x = y; y = <growing or random>   (failure / growth must propagate through the copies)
+            a, b, c = rng.sample(self.all, 3)
+            budget[0] -= 3
+            src = [rng.choice(["add"]), var(c), num(1)] if rng.random() < 0.5 else self.finite_rhs(c)
+            self._pending_list = [["assign", b, var(c)], ["assign", c, src]]
+            return ["assign", a, var(b)]
         if r < 0.45 and self.flags and budget[0] > 1:
             # a variable leaves its value set in the middle of the iteration and is folded back: t = t + g; t = t*(2 - t)
             t = rng.choice(self.flags)
@@ -457,6 +467,7 @@ class C05Gen(C12Gen):
         return ["assign", t, self.finite_rhs(rng.choice(fin))]
 
     _pending = None
+    _pending_list = None
 
     def block(self, depth, budget, n, prefer=None):
         out = []
@@ -467,6 +478,9 @@ class C05Gen(C12Gen):
             if self._pending is not None:
                 out.append(self._pending)
                 self._pending = None
+            if self._pending_list:
+                out += self._pending_list
+                self._pending_list = None
         if not out:
             budget[0] -= 1
             out.append(["assign", self.target(), self.lin_expr()])
